@@ -3,7 +3,8 @@ EXTENDS Auth, Json
 CONSTANTS Depth
 VARIABLE hist
 Pick(S) == RandomElement(S)
-CounterStr(r, c) == "cp-" \o r \o "-" \o c
+VStr(v) == IF v = 1 THEN "1" ELSE "2"
+CounterStr(r, c, v) == "cp-" \o r \o "-" \o c \o "-v" \o VStr(v)
 AllAccts == {"r1", "r2", "tss", "out"}
 AllChains == {"one", "two", "tss"}
 AllMethods == {"setSequence", "setAckStatus", "setChainName", "sendPacketFeeToRelayer", "packet.onRecvPacket", "OnAcknowledgePacket",
@@ -11,14 +12,16 @@ AllMethods == {"setSequence", "setAckStatus", "setChainName", "sendPacketFeeToRe
 AllPaths == {"eoa", "contract", "execute", "execute-contract"}
 SetToSeq(S) == CHOOSE s \in [1..Cardinality(S) -> S] : \A i, j \in 1..Cardinality(S) : i # j => s[i] # s[j]
 Unacked == (1..sent) \ acked
-Payable == {Counter(r, TssChain) : r \in {x \in Accts : TssChain \in reg[x]}}
+Payable == {Counter(r, TssChain, ver[r]) : r \in {x \in Accts : TssChain \in reg[x]}}
 MInit == Init /\ hist = <<>>
 (* biased towards histories in which something is registered, sent and received, so that the accept side is exercised *)
 MNext ==
   /\ Len(hist) < Depth
-  /\ \E w \in {Pick(1..20)}, a \in {Pick(Accts)}, c \in {Pick(Chains)}, pf \in {Pick(Proofs)} :
-       \/ w <= 3 /\ \E cs \in {Pick((SUBSET Chains) \ {{}})} : RegisterEff(a, cs) /\ last' = [act |-> "Register", res |-> "ok", r |-> a, chains |-> SetToSeq(cs)]
-       \/ w = 4 /\ RegisterEff(TssAcct, {TssChain} \cup (IF Pick(1..2) = 1 THEN {"one"} ELSE {})) /\ last' = [act |-> "Register", res |-> "ok", r |-> TssAcct, chains |-> SetToSeq({TssChain} \cup (IF reg'[TssAcct] = {TssChain} THEN {} ELSE {"one"}))]
+  /\ \E w \in {Pick(1..21)}, a \in {Pick(Accts)}, c \in {Pick(Chains)}, pf \in {Pick(Proofs)} :
+       \/ w <= 3 /\ \E cs \in {Pick((SUBSET Chains) \ {{}})}, v \in {Pick(Vers)} : RegisterEff(a, cs, v) /\ last' = [act |-> "Register", res |-> "ok", r |-> a, chains |-> SetToSeq(cs), v |-> v]
+       (* the TSS account (re-)registered for the TSS chain; re-registrations of an account for the SAME chains with the other address *)
+       \/ w = 4 /\ \E v \in {Pick(Vers)} : RegisterEff(TssAcct, {TssChain}, v) /\ last' = [act |-> "Register", res |-> "ok", r |-> TssAcct, chains |-> <<TssChain>>, v |-> v]
+       \/ w = 21 /\ reg[a] # {} /\ RegisterEff(a, reg[a], 3 - ver[a]) /\ last' = [act |-> "Register", res |-> "ok", r |-> a, chains |-> SetToSeq(reg[a]), v |-> 3 - ver[a]]
        \/ w \in {5, 6, 7} /\ UpdateEff(a, c) /\ last' = [act |-> "Update", res |-> Res(UpdateOK(a, c)), signer |-> a, chain |-> c]
        \/ w \in {8, 9, 10} /\ \E aa \in {IF Pick(1..2) = 1 THEN TssAcct ELSE a}, cc \in {IF Pick(1..3) > 1 THEN TssChain ELSE c},
                                  m \in {IF Pick(1..2) = 1 THEN "none" ELSE Pick(Methods)} :
@@ -29,7 +32,7 @@ MNext ==
                                     s \in {IF Unacked # {} /\ Pick(1..4) > 1 THEN Pick(Unacked) ELSE Pick(1..MaxSeq)},
                                     rel \in {IF Payable # {} /\ Pick(1..4) > 1 THEN Pick(Payable) ELSE Pick(Rels)} :
               AckEff(aa, s, rel) /\ last' = [act |-> "Ack", res |-> Res(AckOK(aa, s, rel)), signer |-> aa, seq |-> s, rel |-> rel, proof |-> pf]
-       \/ w >= 16 /\ \E p \in {Pick(Paths)}, m \in {Pick(Methods)} : Priv(p, m)
+       \/ w \in 16..20 /\ \E p \in {Pick(Paths)}, m \in {Pick(Methods)} : Priv(p, m)
   /\ hist' = Append(hist, last')
 MSpec == MInit /\ [][MNext]_<<vars, hist>>
 Emit == Len(hist) = Depth => PrintT(<<"MBT", ToJson(hist)>>)
